@@ -43,6 +43,9 @@ DeltasSmall == {d \in DeltasRound : d.id # MCBlank}
 FullBlocksTiny == {b \in FullBlocksSmall : Len(b.txs) <= 1}
 DeltasTiny == {d \in DeltasSmall : Len(d.txs) = 1 /\ d.txs[1] \in {1, 3}}
 
+FullBlocksMini == {b \in FullBlocksTiny : b.id # "b"}
+DeltasMini == {d \in DeltasTiny : d.id # "b"}
+
 (* simulation alphabets: any transaction list *)
 SeqsUpTo(S, n) == UNION {[1..k -> S] : k \in 0..n}
 FullBlocksAny == {[id |-> i, txs |-> t] : i \in AllIds, t \in SeqsUpTo(MCTxIds, 2)}
